@@ -75,6 +75,7 @@ type checkOut struct {
 	ST   string `json:"st,omitempty"` // k-th SQL statement fails once (inside the database driver, below the persister)
 	SP   string `json:"sp,omitempty"` // every SQL statement from the k-th on fails
 	SN   int    `json:"sn,omitempty"` // SQL statements of the fault-free run
+	SL   string `json:"sl,omitempty"` // k-th SQL statement fails once with SQLite's lock conflict (reported as a serialisation conflict)
 	CA   string `json:"ca,omitempty"` // request context cancelled before the k-th call (k=0: before start)
 	CMs  []int  `json:"cms,omitempty"`
 	CL   []int  `json:"cl,omitempty"` // leaked goroutines after each cancel run
@@ -487,8 +488,13 @@ func runGroup(t *testing.T, in *checkIn, out *ndWriter, e *checkEnv, gi, wi int,
 					sqlCtl.begin(0, 0)
 					e.runCheck(t, q, d, nil)
 					o.SN = len(sqlCtl.end())
-					var st, sp []byte
+					var st, sp, sl []byte
 					for k := 1; k <= o.SN+1; k++ {
+						waitNoKetoGoroutines(200 * time.Millisecond)
+						sqlCtl.beginLocked(k)
+						cl, _, _ := e.runCheck(t, q, d, nil)
+						sqlCtl.end()
+						sl = append(sl, cl)
 						waitNoKetoGoroutines(200 * time.Millisecond)
 						sqlCtl.begin(k, 0)
 						c, _, _ := e.runCheck(t, q, d, nil)
@@ -500,7 +506,7 @@ func runGroup(t *testing.T, in *checkIn, out *ndWriter, e *checkEnv, gi, wi int,
 						sqlCtl.end()
 						sp = append(sp, c)
 					}
-					o.ST, o.SP = string(st), string(sp)
+					o.ST, o.SP, o.SL = string(st), string(sp), string(sl)
 				}
 				out.write(o)
 			}
